@@ -42,7 +42,7 @@ def configs(thorough, rng):
             d = dict(c)
             d.update(body=body, raise_at=at)
             if at >= 0:
-                d["raise_kind"] = ["Exception", "KeyboardInterrupt", "SystemExit", "GeneratorExit"][len(extra) % 4]
+                d["raise_kind"] = ["Exception", "KeyboardInterrupt", "SystemExit", "GeneratorExit", "FalsyError"][len(extra) % 5]
             extra.append(d)
     for c in out:
         if not c["overwrite"] and not c["dest_present"]:
